@@ -5,6 +5,7 @@ R12a comment gate; R12b math_mode switch (+ cross-table routing of math
 environments); R12c discard gate (+ the default of the discard flag and the
 table entries that rely on it)."""
 import ast
+from .. import core
 from ..core import (AnalysisError, short, unparse, iter_own, call_name, call_recv, kwarg,
                     is_self_attr, atomic_facts, parents, enclosing_stmt, const_value)
 from .. import tables
@@ -112,8 +113,8 @@ def run(ctx):
     valid = None
     for n in iter_own(init):
         if isinstance(n, ast.Compare) and is_self_attr(n.left, 'math_mode') and \
-                isinstance(n.ops[0], ast.NotIn) and isinstance(n.comparators[0], (ast.Tuple, ast.List)):
-            valid = {const_value(e) for e in n.comparators[0].elts}
+                isinstance(n.ops[0], ast.NotIn) and core.const_members(m, n.comparators[0]) is not None:
+            valid = set(core.const_members(m, n.comparators[0]))
     ctx.decide('R12b', valid is not None and valid == arms == set(MATH_MODES), m, mf,
                'validated modes = arms = %s' % sorted(arms),
                'math modes validated in __init__ (%s) and arms of math_node_to_text (%s) differ '
@@ -314,6 +315,21 @@ def run(ctx):
                        construct='%s: parameter %s' % (q, p_), trivial=True)
     ctx.analysed['factory_parameters_checked'] = n_live
     ctx.assume('specs supplied by the user (custom latex_context) are outside the cross-table rule')
+    # ---- R12h: a comment is recognised wherever the comment character stands
+    ctx.rule('R12h', 'the token reader decides what starts at a position from the text at and after that position '
+                     'only: a comment character is a comment whatever precedes it (after the line-break macro \\\\ '
+                     'the `%` of `\\\\%note` starts a comment)', 1)
+    from . import c10 as _c10
+    _c10.look_behind_scan(ctx, 'R12h', repo.mod('pylatexenc.latexnodes._tokenreader'),
+                          'whether a comment is recognised then depends on the preceding characters -- in '
+                          '`\\\\%note` the comment glued to a line-break macro is tokenised as ordinary text and its '
+                          'content appears in the output although keep_comments is off')
+
+    # ---- R12i
+    ctx.rule('R12i', 'comments skipped in front of a macro argument stay in the returned node tree (keep_comments '
+                     'renders every comment)', 1)
+    _skipped_comments_kept(ctx, repo)
+
     return 'other', (
         'Decides the gates through which comments, formula content and discarded constructs can '
         'reach the output: every return of the three gate functions is classified by the facts '
@@ -323,17 +339,9 @@ def run(ctx):
 
 
 def _dispatch(ntt):
-    """LatexXNode -> method name, from `if node.isNodeType(latexwalker.X): return self.m(node...)`."""
-    out = {}
-    for i in [x for x in iter_own(ntt) if isinstance(x, ast.If)]:
-        t = i.test
-        if isinstance(t, ast.Call) and call_name(t) == 'isNodeType' and t.args:
-            cls = unparse(t.args[0]).rsplit('.', 1)[-1]
-            for s in i.body:
-                if isinstance(s, ast.Return) and isinstance(s.value, ast.Call) and \
-                        is_self_attr(s.value.func):
-                    out.setdefault(cls, s.value.func.attr)
-    return out
+    """LatexXNode -> method name (shapes.node_dispatch: per returning path, form independent)"""
+    from .. import shapes
+    return shapes.node_dispatch(ntt)
 
 
 def _wraps_delims(v):
@@ -348,3 +356,35 @@ def _wraps_delims(v):
             parts.append(e)
     flat(v)
     return len(parts) >= 3 and unparse(parts[0]) == 'delims[0]' and unparse(parts[-1]) == 'delims[1]'
+
+
+
+def _skipped_comments_kept(ctx, repo):
+    """R12i: comment nodes that a parser collects while it looks for an argument (skipped in front
+    of the argument) stay in the tree it returns, so that keep_comments can render them"""
+    em = repo.mod('pylatexenc.latexnodes.parsers._expression')
+    n = 0
+    for q, f in sorted(em.functions.items()):
+        accs = [st for st in iter_own(f) if isinstance(st, ast.AugAssign) and isinstance(st.target, ast.Name)
+                and any(isinstance(x, ast.Attribute) and x.attr == 'skipped_nodes' for x in ast.walk(st.value))]
+        if not accs:
+            continue
+        acc = accs[0].target.id
+        # lists built from the accumulator
+        derived = {acc}
+        for st in iter_own(f):
+            if isinstance(st, ast.Assign) and len(st.targets) == 1 and isinstance(st.targets[0], ast.Name) and any(
+                    isinstance(x, ast.Name) and x.id in derived for x in ast.walk(st.value)):
+                derived.add(st.targets[0].id)
+        picks = [x for x in iter_own(f) if isinstance(x, ast.Subscript) and isinstance(x.ctx, ast.Load)
+                 and isinstance(x.value, ast.Name) and x.value.id in derived
+                 and not isinstance(x.slice, ast.Slice)]
+        n += 1
+        ctx.decide('R12i', not picks, em, picks[0] if picks else f,
+                   '%s returns the whole list it collected (skipped comments included)' % q,
+                   '%s collects the comment nodes it skips in front of an argument (%s += ...skipped_nodes) but '
+                   'returns only %s: the comments between a macro and its argument are in no node of the tree, so '
+                   'keep_comments=True cannot render them' % (q, acc, short(picks[0], 40) if picks else ''),
+                   construct='%s: skipped comments' % q)
+    if n == 0:
+        ctx.unknown('R12i', em, None, 'no parser collecting skipped comment nodes found', construct='skipped comments')
